@@ -138,22 +138,17 @@ Proof.
 Qed.
 
 Theorem len_rows : forall ws hs proj vt w h q,
-  forallb boolty (ws ++ hs) = true -> forallb g_only ws = true -> forallb (fun e => negb (loses_mark e)) hs = true -> ty_of proj = Some (TV vt) ->
+  forallb boolty (ws ++ hs) = true -> forallb g_only ws = true -> ty_of proj = Some (TV vt) ->
   tr_len d ws hs = Some (sub_join, w, h) -> tr_project d proj = Some q ->
   Forall (len_ok ws hs proj) (tG db) ->
   sql_len_rows d params db w h q = map (enc d) (py_len_rows params db ws hs proj) /\
   map (dec (TV vt)) (sql_len_rows d params db w h q) = py_len_rows params db ws hs proj.
 Proof.
-  intros ws hs proj vt w h q Ty Go Ch Hp ET EQ Hall. rewrite Forall_forall in Hall.
+  intros ws hs proj vt w h q Ty Go Hp ET EQ Hall. rewrite Forall_forall in Hall.
   rewrite forallb_app in Ty. apply andb_prop in Ty. destruct Ty as [Tw Th]. rewrite forallb_forall in Tw, Th, Go.
   unfold tr_len, tr_len_raw in ET.
-  assert (F1 : filter (fun e => negb (loses_mark e)) hs = hs) by (apply filter_all; intros e He; rewrite forallb_forall in Ch; auto).
-  assert (F2 : filter loses_mark hs = []).
-  { clear -Ch. induction hs as [|e r IH]; [reflexivity|]. cbn [forallb] in Ch. apply andb_prop in Ch. destruct Ch as [C1 C2]. cbn [filter].
-    destruct (loses_mark e); [discriminate C1|]. auto. }
-  rewrite F1, F2 in ET. cbn [tr_filters] in ET.
   destruct (tr_filters d ws) as [w'|] eqn:Ew; [|discriminate]. destruct (tr_filters d hs) as [h'|] eqn:Eh; [|discriminate].
-  rewrite app_nil_r in ET. cbn [fst snd] in ET.
+  cbn [fst snd] in ET.
   match type of ET with (if ?c then _ else _) = _ => destruct c; [|discriminate] end. inversion ET; subst w' h'. clear ET.
   set (Wg := fun g => forallb (fun e => py_truthy e (ref_eval (len_env params db g) e)) ws).
   set (Hg := fun g => forallb (fun e => py_truthy e (ref_eval (len_env params db g) e)) hs).
